@@ -11,86 +11,205 @@ def rule_cache(ctx):
         ctx, "C18.CACHE", "C18", ["Drillhole"], 2,
         "every setter/method that stores an input (_collar, _surveys) of the memoised Drillhole.locations resets "
         "_locations on every path on which it stores",
-        only_fields={"_locations"},
+        only_props={"locations"},
     )
 
 
-RULES = [rule_cache]
+_DEPTH_PARAMS = ("depth", "depths", "from_to")  # public keyword parameters of the two entry points (public interface, not locals)
+_VALUE_PARAMS = ("values",)
+_ENTRY_POINTS = ("validate_depth_data", "validate_interval_data")
+
+
+def _self_calls(node, sn, name=None):
+    """Calls `self.<name>(..)` in node (any name when None)."""
+    import ast
+
+    return [c for c in ast.walk(node) if isinstance(c, ast.Call) and isinstance(c.func, ast.Attribute) and isinstance(c.func.value, ast.Name)
+            and c.func.value.id == sn and (name is None or c.func.attr == name)]
+
+
+def _analysis_roots(ctx, K, holds):
+    """Functions in whose normalised view the sites of interest are to be looked at: a private helper that `holds` a site is
+    analysed through its callers (its body is expanded there, with the callers' arguments bound), everything else on its own."""
+    import ast
+
+    members = [f for f in K.methods.values()] + [f for pr in K.props.values() for f in (pr.getter, pr.setter) if f is not None and f.cls is K]
+    holders = [f for f in members if holds(f.node)]
+    out, seen = [], set()
+    work = list(holders)
+    while work:
+        f = work.pop(0)
+        if f in seen:
+            continue
+        seen.add(f)
+        private = f.name.startswith("_") and not f.name.startswith("__")
+        callers = [g for g in members if g is not f and _self_calls(g.node, g.self_name or "self", f.name)] if private else []
+        if callers:
+            work += callers
+        else:
+            out.append(f)
+    return out, holders
 
 
 def rule_prov(ctx) -> RuleResult:
     import ast
 
     from ..model import AnalysisError, unparse
+    from ._c17_flow import Flow, call_name
 
     res = RuleResult(
         "C18.PROV",
         "C18",
         "every argument handed to Drillhole.add_vertices in validate_depth_data / validate_interval_data is "
         "self.desurvey(d) with d derived from the depths being added (never from the values, never raw depths as coordinates)",
-        floor=4,
+        floor=3,
     )
     p = ctx.p
     dh = p.cls("Drillhole")
+
+    def holds(node):
+        return any(isinstance(c, ast.Call) and call_name(c) == "add_vertices" for c in ast.walk(node))
+
+    roots_fns, holders = _analysis_roots(ctx, dh, holds)
     n_calls = 0
-    for name, fn in dh.methods.items():
-        calls = [c for c in ast.walk(fn.node) if isinstance(c, ast.Call) and unparse(c.func) == "self.add_vertices"]
+    covered = set()
+    for fn in sorted(roots_fns, key=lambda f: f.node.lineno):
+        v = ctx.view(fn)
+        sn = v.self_name or "self"
+        calls = _self_calls(v.node, sn, "add_vertices")
         if not calls:
             continue
-        defs = {}
-        for a in ast.walk(fn.node):
-            if isinstance(a, ast.Assign):
-                for t in a.targets:
-                    for nm in ([t] if isinstance(t, ast.Name) else [e for e in ast.walk(t) if isinstance(e, ast.Name)]):
-                        defs.setdefault(nm.id, []).append(a.value)
+        fl = Flow(v.node)
         params = fn.params[1:]
-        depth_params = [q for q in params if q in ("depth", "from_to", "depths")]
-        value_params = [q for q in params if q in ("values",)]
+        depth_params = [q for q in params if q in _DEPTH_PARAMS]
+        value_params = [q for q in params if q in _VALUE_PARAMS]
+        name = fn.prop or fn.name
+        if fn.name in _ENTRY_POINTS:
+            covered.add(fn.name)
 
-        def roots(e, seen=()):
-            out = set()
-            for x in ast.walk(e):
-                if isinstance(x, ast.Name):
-                    if x.id in defs and x.id not in seen and x.id not in params:
-                        for d in defs[x.id]:
-                            out |= roots(d, seen + (x.id,))
-                    else:
-                        out.add(x.id)
-            return out
+        def is_desurvey(e):
+            return isinstance(e, ast.Call) and isinstance(e.func, ast.Attribute) and e.func.attr == "desurvey" and isinstance(e.func.value, ast.Name) \
+                and e.func.value.id == sn and len(e.args) + len(e.keywords) == 1
 
         for c in calls:
+            if not fl.nodes_of(c):
+                continue
             n_calls += 1
-            a = c.args[0] if c.args else None
+            a = c.args[0] if c.args else (c.keywords[0].value if c.keywords else None)
             where = f"{fn.module.relpath}:{c.lineno}"
-            is_des = isinstance(a, ast.Call) and unparse(a.func) == "self.desurvey" and len(a.args) == 1
-            if not is_des:
+            if a is None:
+                raise AnalysisError(f"{fn.qualname}:{c.lineno}: add_vertices called without an argument")
+            # the coordinates: everything the argument is computed from, desurvey calls taken as opaque leaves
+            atoms = list(fl.atoms(a, stop=is_desurvey))
+            des = [x for x in atoms if is_desurvey(x)]
+            raw = fl.roots(a, stop=is_desurvey) & set(depth_params + value_params)
+            if not des or raw:
                 res.inst(f"Drillhole.{name}:{c.lineno} add_vertices({unparse(a)[:40]})", ok=False)
-                res.find("Drillhole", name, f"add_vertices({unparse(a)[:40]}) is not a desurveyed position", where,
+                res.find("Drillhole", name, "the argument of add_vertices is not a desurveyed position", where,
                          "vertices created for depth data are not located on the surveyed path")
                 continue
-            r = roots(a.args[0])
-            ok = any(q in r for q in depth_params) and not any(q in r for q in value_params)
-            res.inst(f"Drillhole.{name}:{c.lineno} add_vertices(self.desurvey({unparse(a.args[0])[:40]})) <- {sorted(r & set(params))}", nontrivial=True, ok=ok)
+            r = set()
+            for d in des:
+                d_arg = d.args[0] if d.args else d.keywords[0].value
+                env = fl.env(fl.nodes_of(d)) if fl.nodes_of(d) else None
+                r |= fl.roots(d_arg, env)
+            ok = not any(q in r for q in value_params) and (any(q in r for q in depth_params) or not depth_params)
+            if not depth_params and not value_params:
+                # a public helper taking the depths under another name: what it is given is decided at its call sites
+                ok = True
+            res.inst(f"Drillhole.{name}:{c.lineno} add_vertices(self.desurvey(..)) <- {sorted(r & set(params))}", nontrivial=True, ok=ok)
             if not ok:
                 res.find("Drillhole", name, f"desurveyed depths derive from {sorted(r & set(params))}", where,
                          "the positions of the new vertices are computed from something else than the depths being added")
-    if n_calls < 4:
-        raise AnalysisError(f"C18.PROV: only {n_calls} add_vertices call sites found")
-    # the same depths feed the DEPTH / FROM / TO data
-    vd = dh.methods["validate_depth_data"]
-    txt = unparse(vd.node)
-    ok = "self.depths = np.r_[" in txt and "depth" in txt
+    # an entry point that hands the work to another (public) method of the class is covered through that method
+    analysed = {f.name for f in roots_fns}
+    for e in _ENTRY_POINTS:
+        seen, work = set(), [e]
+        while work and e not in covered:
+            m = work.pop()
+            if m in seen or m not in dh.methods:
+                continue
+            seen.add(m)
+            if m != e and m in analysed:
+                covered.add(e)
+            work += [c.func.attr for c in _self_calls(dh.methods[m].node, dh.methods[m].self_name or "self")]
+    missing = [e for e in _ENTRY_POINTS if e not in covered]
+    if missing or n_calls < 2:
+        raise AnalysisError(f"C18.PROV: no add_vertices call site reached from {missing or _ENTRY_POINTS} ({n_calls} sites found)")
+    # the same depths feed the DEPTH data (in the entry point, or in the method of the class it hands the work to)
+    from ._c17_flow import key_of
+
+    seen, work, n_stores, bad_stores = set(), ["validate_depth_data"], 0, 0
+    while work:
+        m = work.pop(0)
+        if m in seen or m not in dh.methods:
+            continue
+        seen.add(m)
+        vd = ctx.view(dh.methods[m])
+        sn = vd.self_name or "self"
+        work += [c.func.attr for c in _self_calls(vd.node, sn)]
+        stores = []
+        for n in ast.walk(vd.node):
+            if isinstance(n, (ast.Assign, ast.AnnAssign)) and n.value is not None:
+                for t in (n.targets if isinstance(n, ast.Assign) else [n.target]):
+                    if key_of(t) in (f"{sn}.depths", f"{sn}.depths.values"):
+                        stores.append(n)
+        if not stores:
+            continue
+        fl = Flow(vd.node)
+        dparams = [q for q in vd.params[1:] if q in _DEPTH_PARAMS]
+        vparams = [q for q in vd.params[1:] if q in _VALUE_PARAMS]
+        for n in stores:
+            if not fl.nodes_of(n.value):
+                continue
+            n_stores += 1
+            r = fl.roots(n.value)
+            if (dparams and not (r & set(dparams))) or (r & set(vparams)):
+                bad_stores += 1
+    ok = n_stores > 0 and bad_stores == 0
     res.inst("validate_depth_data: the DEPTH data are extended with the same `depth` array", ok=ok)
     if not ok:
-        res.find("Drillhole", "validate_depth_data", "DEPTH data not extended with the added depths", vd.where, "values are attached to vertices whose DEPTH is something else")
+        res.find("Drillhole", "validate_depth_data", "DEPTH data not extended with the added depths", dh.methods["validate_depth_data"].where,
+                 "values are attached to vertices whose DEPTH is something else")
     return res
+
+
+def _candidates(ctx, holds):
+    """Functions of the package whose normalised view may contain a site: those holding one, private helpers replaced by their callers."""
+    import ast
+
+    p = ctx.p
+    fns = list(p.all_functions())
+    holders = [f for f in fns if holds(f.node)]
+    out, seen = [], set()
+    work = list(holders)
+    while work:
+        f = work.pop(0)
+        if id(f) in seen:
+            continue
+        seen.add(id(f))
+        private = f.name.startswith("_") and not f.name.startswith("__")
+        callers = []
+        if private:
+            for g in fns:
+                if g is f or (f.cls is None and g.module is not f.module) or (f.cls is not None and g.cls is None):
+                    continue
+                for c in ast.walk(g.node):
+                    if isinstance(c, ast.Call) and ((isinstance(c.func, ast.Name) and c.func.id == f.name) or (isinstance(c.func, ast.Attribute) and c.func.attr == f.name)):
+                        callers.append(g)
+                        break
+        if callers:
+            work += callers
+        else:
+            out.append(f)
+    return out
 
 
 def rule_match(ctx) -> RuleResult:
     import ast
 
-    from ..model import AnalysisError, unparse
-    from .c17 import _flow_names
+    from ..model import AnalysisError
+    from ._c17_flow import Flow, call_name, key_of
 
     res = RuleResult(
         "C18.MATCH",
@@ -104,52 +223,97 @@ def rule_match(ctx) -> RuleResult:
     )
     p = ctx.p
     n_a = 0
-    for fn in p.all_functions():
-        calls = [c for c in ast.walk(fn.node) if isinstance(c, ast.Call) and unparse(c.func) in ("np.searchsorted", "numpy.searchsorted") and c.args]
-        if not calls:
-            continue
-        defs = _flow_names(fn)
 
-        def argsorts(e, seen=()):
-            """argsort calls in e, through local names"""
-            out = []
-            for x in ast.walk(e):
-                if isinstance(x, ast.Call) and unparse(x.func) in ("np.argsort", "numpy.argsort"):
-                    out.append(x)
-                if isinstance(x, ast.Name) and x.id in defs and x.id not in seen:
-                    for d in defs[x.id]:
-                        out += argsorts(d, seen + (x.id,))
-            return out
+    def holds(node):
+        return any(isinstance(c, ast.Call) and call_name(c) == "searchsorted" for c in ast.walk(node))
 
+    for fn in _candidates(ctx, holds):
+        v = ctx.view(fn)
+        fl = Flow(v.node)
+
+        def is_module(e):
+            r = p.resolve_name(v.module, e.id) if isinstance(e, ast.Name) else None
+            return bool(r) and r[0] in ("external", "module")
+
+        def is_perm(e, env=None, depth=0):
+            """e evaluates to the result of an argsort (np.argsort(a) / a.argsort()), possibly through locals."""
+            if depth > 6:
+                return False
+            if isinstance(e, ast.Call):
+                if call_name(e) == "argsort":
+                    return True
+                if call_name(e) in ("asarray", "array", "astype", "copy") and (e.args or isinstance(e.func, ast.Attribute)):
+                    inner = e.func.value if isinstance(e.func, ast.Attribute) and not is_module(e.func.value) else (e.args[0] if e.args else None)
+                    return inner is not None and is_perm(inner, env, depth + 1)
+                return False
+            if key_of(e) is not None:
+                ds, entry = fl.reaching(e, env if env is not None else (fl.env(fl.nodes_of(e)) if fl.nodes_of(e) else {}))
+                strong = [d for d in ds if d.strong and d.value is not None]
+                if entry or not strong:
+                    return False
+                for d in strong:
+                    val, venv = fl.value_of(d)
+                    if d.index is not None and val is d.value:
+                        return False  # an element of something that is not a tuple display: unknown
+                    if isinstance(d.stmt, (ast.For, ast.AsyncFor, ast.With, ast.AsyncWith)) or not is_perm(val, venv, depth + 1):
+                        return False
+                return True
+            return False
+
+        def env_of(x, default):
+            return fl.env(fl.nodes_of(x)) if fl.nodes_of(x) else default
+
+        def permuted(x, env):
+            """x is `A[perm]` / np.take(A, perm) / A.take(perm)"""
+            if isinstance(x, ast.Subscript):
+                return is_perm(x.slice, env)
+            if isinstance(x, ast.Call) and call_name(x) == "take":
+                args = list(x.args) + [k.value for k in x.keywords if k.arg == "indices"]
+                return any(is_perm(a, env) for a in args)
+            return False
+
+        def through_perm(x, env):
+            """x is `perm[...]` / np.take(perm, ..) / perm.take(..)"""
+            if isinstance(x, ast.Subscript):
+                return is_perm(x.value, env)
+            if isinstance(x, ast.Call) and call_name(x) == "take":
+                if isinstance(x.func, ast.Attribute) and not is_module(x.func.value):
+                    return is_perm(x.func.value, env)
+                return bool(x.args) and is_perm(x.args[0], env)
+            return False
+
+        def stop_at_perm(e):
+            return key_of(e) is not None and is_perm(e)
+
+        calls = [c for c in ast.walk(v.node) if isinstance(c, ast.Call) and call_name(c) == "searchsorted" and fl.nodes_of(c)]
         for c in calls:
-            hay = c.args[0]
-            # permuted: hay contains X[<argsort-derived>]
-            perm_subs = [x for x in ast.walk(hay) if isinstance(x, ast.Subscript) and argsorts(x.slice)]
-            via_names = []
-            for x in ast.walk(hay):
-                if isinstance(x, ast.Name) and x.id in defs:
-                    for d in defs[x.id]:
-                        via_names += [y for y in ast.walk(d) if isinstance(y, ast.Subscript) and argsorts(y.slice)]
-                        via_names += [y for y in ast.walk(d) if isinstance(y, ast.Call) and unparse(y.func) in ("np.sort", "sorted")]
-            if not (perm_subs or via_names):
+            if isinstance(c.func, ast.Attribute) and not is_module(c.func.value):
+                hay = c.func.value  # a_sorted.searchsorted(v)
+            else:
+                hay = c.args[0] if c.args else next((k.value for k in c.keywords if k.arg == "a"), None)
+            if hay is None:
+                continue
+            # is the haystack a sorted / argsort-permuted copy?
+            is_copy = False
+            for e in fl.cone(hay):
+                env = env_of(e, {})
+                for x in ast.walk(e):
+                    if permuted(x, env) or (isinstance(x, ast.Call) and call_name(x) in ("sort", "sorted")):
+                        is_copy = True
+            if not is_copy:
                 continue
             n_a += 1
-            # returned value must pass through <perm>[...] with perm argsort-derived
-            perm_names = {nm for nm, ds in defs.items() if any(isinstance(d, ast.Call) and unparse(d.func) in ("np.argsort", "numpy.argsort") for d in ds)}
+            rets = [r for r in ast.walk(v.node) if isinstance(r, ast.Return) and r.value is not None and fl.nodes_of(r.value)]
 
-            def mapped_back(e, seen=()):
-                for x in ast.walk(e):
-                    if isinstance(x, ast.Subscript) and isinstance(x.value, ast.Name) and x.value.id in perm_names:
-                        return True
-                    if isinstance(x, ast.Subscript) and isinstance(x.value, ast.Call) and unparse(x.value.func) in ("np.argsort", "numpy.argsort"):
-                        return True
-                    if isinstance(x, ast.Name) and x.id in defs and x.id not in seen and x.id not in perm_names:
-                        if any(mapped_back(d, seen + (x.id,)) for d in defs[x.id]):
+            def mapped_back(r):
+                for e in fl.cone(r.value, stop=stop_at_perm):
+                    env = env_of(e, {})
+                    for x in ast.walk(e):
+                        if through_perm(x, env):
                             return True
                 return False
 
-            rets = [r for r in ast.walk(fn.node) if isinstance(r, ast.Return) and r.value is not None]
-            ok = bool(rets) and all(mapped_back(r.value) for r in rets)
+            ok = bool(rets) and all(mapped_back(r) for r in rets)
             res.inst(f"{fn.qualname}:{c.lineno} searchsorted in a permuted copy; returned indices mapped back through the permutation", nontrivial=True, ok=ok)
             if not ok:
                 res.find(fn.cls.name if fn.cls else fn.module.short, fn.name, "positions found in the sorted copy are returned without mapping back through the argsort permutation",
@@ -160,32 +324,78 @@ def rule_match(ctx) -> RuleResult:
         raise AnalysisError("C18.MATCH: no searchsorted-in-permuted-copy site found (match_values moved?)")
     # (b)
     dh = p.cls("Drillhole")
-    vi = dh.methods.get("validate_interval_data")
-    if vi is None:
+    vi0 = dh.methods.get("validate_interval_data")
+    if vi0 is None:
         raise AnalysisError("anchor Drillhole.validate_interval_data not found")
-    ALL_RED = {"np.linalg.norm", "np.max", "np.amax", "np.all", "max"}
-    ANY_RED = {"np.min", "np.amin", "np.any", "min"}
-    cmps = [c for c in ast.walk(vi.node) if isinstance(c, ast.Compare) and any("collocation_distance" in unparse(x) for x in c.comparators)]
-    if not cmps:
+    vi = ctx.view(vi0)
+    fl = Flow(vi.node)
+    tol_params = [q for q in vi.params[1:] if q not in _DEPTH_PARAMS + _VALUE_PARAMS]  # the tolerance parameter(s) of the entry point
+    ALL_RED = {"norm", "max", "amax", "all", "alltrue"}
+    ANY_RED = {"min", "amin", "any", "sometrue"}
+    parents = {}
+    for n in ast.walk(vi.node):
+        for ch in ast.iter_child_nodes(n):
+            parents[id(ch)] = n
+
+    def from_tol(e):
+        """e is computed from the tolerance parameter alone (the tolerance, possibly scaled / read into a local)"""
+        r = fl.roots(e) if fl.nodes_of(e) else set()
+        return bool(r) and r <= set(tol_params)
+
+    sites = []  # (compare node, distance side, operator as seen from the distance side)
+    for c in ast.walk(vi.node):
+        if isinstance(c, ast.Compare) and len(c.ops) == 1 and isinstance(c.ops[0], (ast.Lt, ast.LtE, ast.Gt, ast.GtE)) and fl.nodes_of(c):
+            l, r = c.left, c.comparators[0]
+            if from_tol(r) and not from_tol(l):
+                sites.append((c, l, c.ops[0]))
+            elif from_tol(l) and not from_tol(r):
+                flip = {ast.Lt: ast.Gt, ast.LtE: ast.GtE, ast.Gt: ast.Lt, ast.GtE: ast.LtE}.get(type(c.ops[0]))
+                sites.append((c, r, flip() if flip else c.ops[0]))
+    if not sites:
         raise AnalysisError("validate_interval_data: comparison against collocation_distance not found")
-    for c in cmps:
-        left = c.left
+    for c, dist, op in sites:
         kind = None
-        for x in ast.walk(left):
-            if isinstance(x, ast.Call):
-                fnm = unparse(x.func)
-                meth = x.func.attr if isinstance(x.func, ast.Attribute) else None
-                on_np = isinstance(x.func, ast.Attribute) and unparse(x.func.value) in ("np", "numpy", "np.linalg")
-                if fnm in ALL_RED or (meth in ("max", "all") and not on_np):
-                    kind = kind or "all"
-                if fnm in ANY_RED or (meth in ("min", "any") and not on_np):
-                    kind = "any"
+        for e in fl.cone(dist):
+            for x in ast.walk(e):
+                if isinstance(x, ast.Call):
+                    nm = call_name(x)
+                    if nm in ALL_RED:
+                        kind = kind or "all"
+                    if nm in ANY_RED:
+                        kind = "any"
         if kind is None:
-            raise AnalysisError(f"validate_interval_data:{c.lineno}: reduction over the (from, to) axis not recognised in `{unparse(left)[:60]}`")
-        ok = kind == "all" and isinstance(c.ops[0], (ast.Lt, ast.LtE))
-        res.inst(f"validate_interval_data:{c.lineno} interval match = {unparse(left)[:50]} < tolerance", nontrivial=True, ok=ok)
+            # no reduction inside the distance: the comparison is element-wise and reduced afterwards (np.all(|d| < tol, axis=1)),
+            # possibly after being read into a local
+            def around(node, depth=0):
+                cur = node
+                while id(cur) in parents:
+                    cur = parents[id(cur)]
+                    if isinstance(cur, ast.Call):
+                        nm = call_name(cur)
+                        if nm in ("all", "alltrue"):
+                            return "all"
+                        if nm in ("any", "sometrue"):
+                            return "any"
+                    if isinstance(cur, ast.stmt):
+                        break
+                if depth < 4:
+                    kinds = set()
+                    for d in fl.defs:
+                        if d.strong and d.value is not None and any(x is node for x in ast.walk(d.value)) and isinstance(d.stmt, (ast.Assign, ast.AnnAssign, ast.NamedExpr)):
+                            for u in fl.uses_of(d):
+                                kinds.add(around(u, depth + 1))
+                    kinds.discard(None)
+                    if kinds:
+                        return "any" if "any" in kinds else "all"
+                return None
+
+            kind = around(c)
+        if kind is None:
+            raise AnalysisError(f"validate_interval_data:{c.lineno}: reduction over the (from, to) axis not recognised")
+        ok = kind == "all" and isinstance(op, (ast.Lt, ast.LtE))
+        res.inst(f"validate_interval_data:{c.lineno} interval match = all-components distance < tolerance", nontrivial=True, ok=ok)
         if not ok:
-            res.find("Drillhole", "validate_interval_data", f"an interval matches when ANY endpoint coincides ({unparse(left)[:50]})",
+            res.find("Drillhole", "validate_interval_data", "an interval matches when ANY endpoint coincides",
                      f"{vi.module.relpath}:{c.lineno}",
                      "an added interval sharing only its from (or only its to) with an existing one is treated as that interval: its values are "
                      "attached to the wrong cell and no vertices are created for its other endpoint")
